@@ -530,11 +530,13 @@ fn display_interpolation(
                     .as_str()
             }
             pr::InterpolateItem::Expr { expr, format } => {
+                // the identifier and the format specifier stand inside a string literal too
+                let in_string = |s: &str| s.replace('\\', "\\\\").replace('"', "\\\"");
                 r += "{";
-                r += &expr.write(opt.clone())?;
+                r += &in_string(&expr.write(opt.clone())?);
                 if let Some(format) = format {
                     r += ":";
-                    r += format;
+                    r += &in_string(format);
                 }
                 r += "}"
             }
